@@ -298,9 +298,17 @@ def rule_base(ctx, kernels=None, rid='base'):
     # the helpers themselves: y_data[0] = f(x_data[0])
     for h in ('_black_f_white_fprime', '_eval_slow_generic'):
         fi = m.func(ALGO, h)
-        st = [s for s in walk_no_nested(fi.node) if isinstance(s, ast.Assign) and norm(s) == 'y_data[0] = f(x_data[0])']
+        fpar = fi.params[0]
+
+        def _zeroth(e):
+            return isinstance(e, ast.Subscript) and isinstance(e.value, ast.Name) and (
+                (isinstance(e.slice, ast.Constant) and e.slice.value == 0 and e.slice.value is not False)
+                or (isinstance(e.slice, ast.Tuple) and e.slice.elts and isinstance(e.slice.elts[0], ast.Constant) and e.slice.elts[0].value == 0))
+        st = [s for s in walk_no_nested(fi.node) if isinstance(s, ast.Assign) and len(s.targets) == 1 and _zeroth(s.targets[0])
+              and isinstance(s.value, ast.Call) and isinstance(s.value.func, ast.Name) and s.value.func.id == fpar
+              and len(s.value.args) == 1 and _zeroth(s.value.args[0]) and s.value.args[0].value.id in fi.params]
         if st:
-            r.ok(construct=h, sample='%s: `y_data[0] = f(x_data[0])`' % h)
+            r.ok(construct=h, sample='%s: `%s`' % (h, norm(st[0])))
         else:
             r.bad(Finding(rid, _f(fi), 'helper-base', '%s no longer defines y_data[0] = f(x_data[0])' % h, fi.file, fi.lineno))
     r.floor = 25 if kernels is None else 3
